@@ -102,6 +102,30 @@ UNITS.append(Unit('w.CdnsBlock.write', ('CdnsBlock::write', None), contract=WB_C
                        'all stored items in order; stored QueryResponse/MalformedMessage records are non-empty (element invariant, '
                        'established by the add_* units)'))
 
+# ---------------------------------------------------------------- CdnsBlock::clear (C11: nothing of a cleared block is visible in the next one)
+def clear_contract(ast, L, tf):
+    # every BlockTable / item container member of CdnsBlock, taken from the AST (a new table without a clear() is a violation, not a gap)
+    conts = []
+    for f in ast.records['CdnsBlock'].get('inner', []):
+        if isinstance(f, dict) and f.get('kind') == 'FieldDecl':
+            cls, t = L.types.classify(f['type'].get('desugaredQualType') or f['type']['qualType'])
+            if cls in ('bt', 'vec', 'deq', 'umap'):
+                conts.append(f['name'])
+    if sorted(conts) != sorted(TABLES + ['m_query_responses', 'm_address_event_counts', 'm_malformed_messages']):
+        raise LowerError('CdnsBlock containers changed: %s' % conts)
+    c = '\n__CPROVER_requires(__CPROVER_w_ok($this, sizeof(*$this)) && g_exc == 0)\n__CPROVER_assigns(__CPROVER_object_whole($this))\n__CPROVER_ensures(g_exc == 0)\n'
+    for m in conts:
+        c += '__CPROVER_ensures($this->%s.n == 0)\n' % m
+    c += '__CPROVER_ensures(!$this->m_block_statistics.has && $this->m_block_preamble.earliest_time.m_secs == 0 && $this->m_block_preamble.earliest_time.m_ticks == 0)\n'
+    return c
+
+
+UNITS.append(Unit('blk.clear', ('CdnsBlock::clear', None), contract=clear_contract, prelude=P, pre_c=PRE_C, extern_records=EXT,
+                  stubs=['BlockTable_[A-Za-z]+__clear', 'seq_[A-Za-z0-9_]+__clear', 'umap_[A-Za-z0-9_]+__clear'],
+                  setup='  static struct CdnsBlock obj;\n', args=['&obj'], props=['C11', 'C12'], timeout=300,
+                  auto_inline=[r'[A-Za-z]+__ctor__\w+', r'[A-Za-z]+__default'],
+                  note='whatever the block holds (also tables populated while no item is buffered): every table and every item array is empty afterwards, statistics and earliest time reset'))
+
 from item_units import TRUSTED_BASE as _TB, ASSUMPTIONS as _AS
 TRUSTED_BASE = _TB + ['A7 BlockTable<T> as seen by CdnsBlock: a sequence in index order with size(); std::unordered_map iteration visits every entry once']
 ASSUMPTIONS = _AS + ['table and array sizes < 2^56', 'ticks_per_second >= 1']
